@@ -658,7 +658,10 @@ class ValidateMediaChanges(HTMLHandlerBase):
         try:
             lang = data['lang']
             track_id = int(data['track_id'], 10)
-        except (KeyError, ValueError):
+        except (KeyError, ValueError, TypeError):
+            # TypeError: the body is not an object, or track_id not a string
+            return jsonify_no_content(400)
+        if not isinstance(lang, str):
             return jsonify_no_content(400)
         errors: dict[str, str] = {
             "lang": '',
